@@ -13,8 +13,8 @@ RULE = ("each case = one text file written to a scratch directory (UTF-8, newlin
         "SequenceParameters(sequenceFile=...) (+ kappa, FCR, hydropathy of that object) vs the model; files: random layouts of random "
         "sequences (header or not, line lengths 1..80, 10-residue blocks, position numbers, blank lines, leading/trailing white space, "
         "LF / CRLF / CR, trailing newline or not, optional final '*'), all single-character corruptions (every ASCII character + a "
-        "Unicode sample, replacing and inserting at every position) of small files, files with a second header, repeated / non-final "
-        "'*'; non-trivial = distinct file content")
+        "sample of every behaviour class of CPython's character predicates among non-ASCII code points, replacing and inserting at every position) of small files, files with a second header, repeated / non-final "
+        "'*'; blocks of 2-6 files parsed by ONE reused SequenceFileParser object; non-trivial = distinct file content")
 EXHAUSTIVE = {"quick": "every ASCII character substituted and inserted at every position of 2 small files",
               "thorough": "every ASCII character substituted and inserted at every position of 6 small files"}
 TRUSTED = ["universal-newline decoding and UTF-8 file encoding are modelled (splitLines), not verified"]
@@ -75,7 +75,9 @@ def cases(rng, tier):
     yield fcase("", "empty-file")
     small = [">hdr\nACDEF GHIKL\n MNPQR 15\nSTVWY*\n", "KE\r\nGG\r\n", "  10 ACD\n\n>late header\nEK*", "A", ">only header\n", "ACD\rEFG\r"]
     nsmall = 2 if tier == "quick" else 6
-    extra = [0x85, 0xa0, 0x2028, 0x3000, 0xdf, 0x131, 0xe9, 0x3a9, 0x1f600]
+    # non-ASCII: one representative of every behaviour class of CPython's str predicates / case maps (digits that are not
+    # 0-9, spaces that are not ASCII, letters whose upper() is ASCII, ...) + a few fixed ones
+    extra = sorted(set(gen.unicode_signature_sample() + [0x85, 0xa0, 0x2028, 0x3000, 0xdf, 0x131, 0xe9, 0x3a9, 0xff11, 0xff21, 0x2463, 0x1f600]))
     for f in small[:nsmall]:
         # (an object built from a file without residues has an empty sequence: outside the property's quantifier)
         yield fcase(f, "small-file", analyses=any(c.isalpha() for l in f.replace("\r", "\n").split("\n") if not l.strip().startswith(">") for c in l))
@@ -85,6 +87,12 @@ def cases(rng, tier):
                 yield fcase(f[:pos] + ch + f[pos:], "insert-char")
                 if pos < len(f):
                     yield fcase(f[:pos] + ch + f[pos + 1:], "replace-char")
+    # ONE parser object reused for several files (valid with header / without, rejected ones in between): the result
+    # for a file must not depend on the files parsed before it
+    pool = [">h1\nACDEF\nGHIKL\n", "KEKE\n", ">h2 x\nMNPQR*\n", ">a\n>b\nAC\n", "AC1DE\n", "ACxDE\n", ">h3\n 10 STVWY\n", "A*C\n", ""]
+    for _ in range(30 if tier == "quick" else 300):
+        files = [rng.choice(pool) if rng.random() < 0.6 else layout(gen.rand_seq(rng, rng.choice(gen.KINDS), rng.randint(1, 60)), rng) for _ in range(rng.randint(2, 6))]
+        yield Case([("parse2 " + hex6(t)) if t else "parse2" for t in files], {"kind": "parser-reuse"})
     n = 150 if tier == "quick" else 1500
     for kind, s in gen.rand_seqs(rng, n, 300):
         t = layout(s, rng)
